@@ -3527,13 +3527,22 @@ int EGLPNUM_TYPENAME_ILLlib_chgrange (
 		ILL_CLEANUP;
 	}
 	
+	/* refuse before touching anything: the MPS writer decides from the
+	 * presence of the array of ranges whether to write a RANGES section */
+	qslp = lp->O;
+	if(qslp->sense[indx] != 'R')
+	{
+		QSlog("setting range for non-range constraint");
+		rval = 1;
+		ILL_CLEANUP;
+	}
+
 	if (lp->O->sinfo)
 	{/* Presolve LP is no longer valid, free the data */
 		EGLPNUM_TYPENAME_ILLlp_sinfo_free (lp->O->sinfo);
 		ILL_IFFREE(lp->O->sinfo);
 	}
 	
-	qslp = lp->O;
 	if(qslp->rangeval == 0)
 	{
 		qslp->rangeval = EGLPNUM_TYPENAME_EGlpNumAllocArray(qslp->rowsize);
@@ -3541,13 +3550,6 @@ int EGLPNUM_TYPENAME_ILLlib_chgrange (
 		{
 			EGLPNUM_TYPENAME_EGlpNumZero(qslp->rangeval[i]);
 		}
-	}
-	
-	if(qslp->sense[indx] != 'R')
-	{
-		QSlog("setting range for non-range constraint");
-		rval = 1;
-		ILL_CLEANUP;
 	}
 	
 	EGLPNUM_TYPENAME_EGlpNumCopy(qslp->rangeval[indx], coef);
